@@ -19,8 +19,8 @@ class Driver(ChanDriver):
     def corpus(self):
         F = lambda n, num=0, s=b'': (n, num, s)
         return [
-            # F9: a call aborted by an error that arrives while it waits; its late
-            # reply is handed to the next call of the same kind
+            # F9 (fixed): a call used to be aborted by a returned message arriving while it waits;
+            # its late reply was handed to the next call of the same kind
             (1, [(1, ('rpc', 0), [[(1, F('NReturn', 312)), (1, F('NHeader', 0))],
                                   [(1, F('NDeclareOk', 1))]]),
                  (1, ('rpc', 0), [[(1, F('NDeclareOk', 2))]])]),
@@ -32,13 +32,4 @@ class Driver(ChanDriver):
         ]
 
     def fingerprint(self, case):
-        m = case['meta']
-        res = m.get('results') or []
-        steps = m['steps']
-        for i, (st, r) in enumerate(zip(steps, res)):
-            # F9: a call that was written and then aborted by an error,
-            # followed by a later call of the same kind on that channel
-            if st[1][0] == 'rpc' and 'RErr' in r and \
-                    any(s2[0] == st[0] and s2[1] == st[1] for s2 in steps[i + 1:]):
-                return 'rpc-aborted+late-reply'
         return None
